@@ -922,7 +922,12 @@ static void check_needed(ctx_t *x, const int *R, int nr, const int *X, int nx, i
                 /* follow-up: reconstruct each requested fragment from exactly N where the front end allows it */
                 if (!bad && x->nstr > 0 && n - ns <= x->c.m) {
                     int req = must_succeed(x, seen);
-                    for (int i = 0; i < nr; i++) { check_reconstruct(x, 0, seen, (int)(mon_case_idx % NPRES), R[i], req); mon_count("followup_reconstructs", 1); }
+                    for (int i = 0; i < nr; i++) {
+                        /* a flat-XOR parity all of whose equation members are in the returned set is one XOR pass away, however
+                         * many other fragments are absent: the follow-up must succeed there as well (the front end wants k) */
+                        int req_i = req;
+                        if (!req_i && x->c.be == EC_BACKEND_FLAT_XOR_HD && x->cd.xt && R[i] >= k && ns >= k && (x->cd.xt->parity_bms[R[i] - k] & ~seen) == 0) { req_i = 1; mon_count("followup_parity_with_whole_equation_present", 1); }
+                        check_reconstruct(x, 0, seen, (int)(mon_case_idx % NPRES), R[i], req_i); mon_count("followup_reconstructs", 1); }
                 }
             }
         }
